@@ -44,11 +44,11 @@ import (
 // the environment variable C06_COMPARE=all (or a comma separated list of the names below) does the
 // same for one run (development aid: shows what the check says about the excluded sub-domains).
 var (
-	excludeNestedCommentEOF   = !compareAnyway("nested-comment-eof")          // F-C06-nested-comment-eof
-	excludeURLBackslashNL     = !compareAnyway("url-backslash-newline")       // F-C06-url-backslash-newline
-	excludeBadURLBackslashEnd = !compareAnyway("bad-url-escaped-backslash")   // F-C06-bad-url-escaped-backslash
+	excludeNestedCommentEOF   = false                                         // fixed in /repo 0d3c143; F-C06-nested-comment-eof
+	excludeURLBackslashNL     = false                                         // fixed in /repo 1114af0; F-C06-url-backslash-newline
+	excludeBadURLBackslashEnd = false                                         // fixed in /repo 3a5a8a8; F-C06-bad-url-escaped-backslash
 	excludeBigInteger         = !compareAnyway("integer-overflow")            // F-C06-integer-overflow
-	excludeBangAfterBang      = !compareAnyway("important-after-bang")        // F-C06-important-after-bang
+	excludeBangAfterBang      = false                                         // fixed in /repo e1930b2; F-C06-important-after-bang
 	excludeCustomCurly        = !compareAnyway("custom-property-block")       // F-C06-custom-property-block
 	excludeCurlyFirst         = !compareAnyway("block-in-nested-declaration") // F-C06-block-in-nested-declaration (ParseBlocksContents only)
 )
